@@ -54,7 +54,10 @@ TwoCandidates(c) == c \in {"linkup", "linkupabs"}   \* lexical cleaning would na
 ParentOK(c) == c # "missing"
 
 \* kinds of content at the target path
-UserKinds == {"empty", "valid", "garbage", "dir", "dirfull", "link", "dangling", "twin"}
+UserKinds == {"empty", "valid", "garbage", "dir", "dirfull", "link", "dangling", "twin", "fifo"}   \* fifo: a named pipe
+\* argument shapes other than exactly one package: cobra.ExactArgs(1) (init.go:24) refuses them before anything
+\* is opened.  Ids, like the package strings.
+ArgShapes == {"a_none", "a_two"}
 C(k, p) == [k |-> k, p |-> p]
 Presence(c) == IF c.k = "absent" THEN "no" ELSE "yes"      \* lstat: a dangling link is something, too
 By(c) == IF c.k = "init" THEN c.p ELSE None
@@ -83,9 +86,10 @@ Done(rec) == last' = rec /\ hist' = Append(hist, rec)
 \* link even when dangling), with ENOENT when the parent directory is missing.
 InitOpen(p) ==
   /\ pc = "idle" /\ Len(hist) < MaxHist
-  /\ IF content.k # "absent" \/ ~ParentOK(cfg)
+  /\ IF p \in ArgShapes \/ content.k # "absent" \/ ~ParentOK(cfg)
      THEN /\ Done([op |-> "init", pkg |-> p, ok |-> FALSE, after |-> "same",
-                   allow |-> InitAllowed(Presence(content), ParentOK(cfg))])
+                   allow |-> IF p \in ArgShapes THEN InitAllowedOtherArgs(Presence(content))
+                             ELSE InitAllowed(Presence(content), ParentOK(cfg))])
           /\ UNCHANGED <<world, start, decoy, anc, env, cfg, content, mocks, loaded, pc, pending>>
      ELSE /\ content' = C("created", None)        \* an empty file exists from here on
           /\ pc' = "opened" /\ pending' = p
@@ -115,10 +119,14 @@ LoadImpl(c) ==
   ELSE IF c.k \in {"valid", "twin", "link"} THEN [ok |-> TRUE, keys |-> <<"user">>]
   ELSE [ok |-> FALSE, keys |-> << >>]
 
-Load ==
+\* from: "cwd" = the directory init ran in, "below" = a sub-directory of it, the file found by searching upwards
+\* (only meaningful when no --config is given)
+Froms == IF cfg = "default" /\ env = "none" /\ anc = "none" THEN {"cwd", "below"} ELSE {"cwd"}   \* not crossed with env / ancestors
+Load(from) ==
   /\ pc = "idle" /\ Len(hist) < MaxHist
+  /\ content.k # "fifo"          \* reading a pipe nobody writes to blocks: not an observation about init
   /\ LET r == LoadImpl(content) IN
-     /\ Done([op |-> "load", pkg |-> By(content), ok |-> r.ok, keys |-> r.keys, expect |-> LoadExpect(By(content))])
+     /\ Done([op |-> "load", from |-> from, pkg |-> By(content), ok |-> r.ok, keys |-> r.keys, expect |-> LoadExpect(By(content))])
      /\ loaded' = IF TrackLoad /\ r.ok THEN TRUE ELSE loaded
   /\ UNCHANGED <<world, start, decoy, anc, env, cfg, content, mocks, pc, pending>>
 
@@ -133,12 +141,12 @@ RunImpl(c) ==
   THEN [ok |-> TRUE, mocked |-> Ifc(c.p)]
   ELSE [ok |-> FALSE, mocked |-> {}]
 
-Run ==
+Run(from) ==
   /\ pc = "idle" /\ Len(hist) < MaxHist
   /\ content.k = "init" /\ IsGoPkg(content.p)   \* a run on user content, or for a string that names no
                                                  \* package, says nothing about init
   /\ LET r == RunImpl(content) IN
-     /\ Done([op |-> "run", pkg |-> By(content), ok |-> r.ok, mocked |-> r.mocked,
+     /\ Done([op |-> "run", from |-> from, pkg |-> By(content), ok |-> r.ok, mocked |-> r.mocked,
               expect |-> RunExpect(By(content), IsGoPkg(content.p), Ifc(content.p), content.p \in mocks)])
      /\ mocks' = IF r.ok THEN mocks \cup {content.p} ELSE mocks
   /\ UNCHANGED <<world, start, decoy, anc, env, cfg, content, loaded, pc, pending>>
@@ -146,8 +154,7 @@ Run ==
 Next ==
   \/ \E p \in world.pkgs : InitOpen(p)
   \/ InitEncode
-  \/ Load
-  \/ Run
+  \/ \E f \in Froms : Load(f) \/ Run(f)
 
 Spec == Init /\ [][Next]_vars
 
@@ -172,7 +179,7 @@ ExistingNeverModified ==
 \* only then in its parents, so the file init wrote there wins over any of these.
 AncClasses == {"none", "u1-yaml-valid", "u1-yml-valid", "u1-yaml-empty", "u1-yml-empty",
                "u2-yaml-valid", "u2-yml-valid", "u2-yaml-empty", "u2-yml-empty"}
-EnvClasses == {"none", "loglevel", "dir", "filename", "force", "all", "template", "config", "buildtags", "unknown", "several", "lower"}
+EnvClasses == {"none", "flagloglevel", "loglevel", "dir", "filename", "force", "all", "template", "config", "buildtags", "unknown", "several", "lower"}
 TypeOK == /\ cfg \in CfgClasses /\ env \in EnvClasses /\ anc \in AncClasses
           /\ content.k \in UserKinds \cup {"absent", "created", "init"}
           /\ pc \in {"idle", "opened"}
